@@ -450,13 +450,14 @@ func Generate(profile string, seed int64) *engine.Scenario {
 	if Thorough && r.Intn(2) == 0 {
 		b.scale = 2
 	}
+	if cold(seed) {
+		// the first run of a fresh process (any profile)
+		genStorm(b)
+		return sc
+	}
 	switch profile {
 	case "C01":
-		if cold(seed) {
-			genStorm(b)
-		} else {
-			genC01(b)
-		}
+		genC01(b)
 	case "C02":
 		genC02(b)
 	case "C03":
@@ -468,11 +469,7 @@ func Generate(profile string, seed int64) *engine.Scenario {
 	case "C04":
 		genC04(b)
 	case "C08":
-		if cold(seed) {
-			genStorm(b)
-		} else {
-			genC08(b)
-		}
+		genC08(b)
 	case "C09":
 		genC09(b)
 	case "C10":
@@ -1393,6 +1390,16 @@ func genC08(b *builder) {
 	r := b.r
 	sc := b.sc
 	b.base(baseOpt{minCtl: 1, maxCtl: 4, maxClients: 3, fixedBind: pick(r, 0, 0, 2)})
+	if r.Intn(6) == 0 && len(sc.Clients) > 1 {
+		// one of the clients is configured with a bind address this host does not have (same port as the others):
+		// its own calls fail - and that is all that happens
+		for _, c := range sc.Clients {
+			if ap, err := netip.ParseAddrPort(c.Bind); err == nil && ap.Port() != 0 {
+				sc.Clients[len(sc.Clients)-1].Bind = fmt.Sprintf("%s.250:%d", b.prefix, ap.Port())
+				break
+			}
+		}
+	}
 	nt := 2 + b.n(5)
 	if r.Intn(3) == 0 {
 		nt = 2
